@@ -1,14 +1,20 @@
 #!/usr/bin/env python3
-"""Collects 'CNN thorough: N cases ... Ts' lines from log files given on the command line into tools/thorough_results.json."""
-import re, sys, json, os
+"""usage: collect_thorough.py <vp run number>[:C01,C02,...] ...   -- collects the thorough-tier results of `vp run` snapshots from the
+evidence files the runs wrote inside their snapshot (/root/.vp/runs/<n>/verif/evidence) into tools/thorough_results.json.
+Later arguments override earlier ones for the properties they name (all properties when no list is given)."""
+import json, glob, os, sys
 R = os.path.dirname(os.path.dirname(os.path.abspath(__file__)))
 p = R + '/tools/thorough_results.json'
 res = json.load(open(p)) if os.path.exists(p) else {}
-for f in sys.argv[1:]:
-    for line in open(f, errors='replace'):
-        m = re.match(r'(C\d\d) thorough: (\d+) cases, (\d+) states.*?, ([\d.]+)s(.*)', line)
-        if m:
-            ne = 'NOT exhaustive' in m.group(5)
-            res[m.group(1)] = '%s cases, %.0f s%s' % (format(int(m.group(2)), ','), float(m.group(4)), ' (deadline cut a section)' if ne else ', exhaustive, exit 0')
+for arg in sys.argv[1:]:
+    run, _, ids = arg.partition(':'); ids = set(ids.split(',')) if ids else None
+    for f in sorted(glob.glob('/root/.vp/runs/%s/verif/evidence/C*.json' % run)):
+        e = json.load(open(f)); pid = e['property_id']
+        if (ids and pid not in ids) or e['tier'] != 'thorough':
+            continue
+        c = e['coverage']; ev = c.get('evaluations'); n = sum(ev.values()) if isinstance(ev, dict) else ev
+        inc = c.get('incomplete') or []
+        ok = c.get('exhaustive') and not e['violations']
+        res[pid] = '%s cases, %.0f s%s' % (format(int(n), ','), e['wall_s'], ', exhaustive, exit 0' if ok else ' (%s)' % ('; '.join(map(str, inc))[:80] if inc else 'violations=%d' % e['violations']))
 json.dump(res, open(p, 'w'), indent=1, sort_keys=True)
 print(res)
